@@ -396,6 +396,10 @@ func runCheck(o *Options) int {
 		fmt.Println("ERROR: no harness matches")
 		return 2
 	}
+	// start the hand-written (usually heavier) harnesses before the generated per-node-type ones
+	sort.SliceStable(jobs, func(i, j int) bool {
+		return !strings.Contains(jobs[i].fn.Name(), "_") && strings.Contains(jobs[j].fn.Name(), "_")
+	})
 	if o.Cfg.PathWorkers == 0 {
 		o.Cfg.PathWorkers = 1
 		if len(jobs) < o.Workers {
